@@ -2,7 +2,7 @@
    (operation.py:335).  Definitions only; the proofs are in Proofs/FldProofs.v.
 
    What is abstract (Section parameters, supplied by the harness tools/props/C18.py):
-     pow_root v n   = int(pow(v, 1.0 / n)) exactly as the implementation computes it (libm pow + truncation)
+     pow_root v n   = int(round(pow(v, 1.0 / n))) exactly as the implementation computes it (libm pow + rounding)
      fmt            = the "%0.<decimals>f" formatting of one number
      outputs_of     = the output rows the engine produces for a batch of input rows (C01/C02 cover the engine)
      parse_float    = to_float on one whitespace-separated token (None = ValueError)
@@ -56,10 +56,20 @@ Fixpoint kroot_up (fuel : nat) (v : Z) (n : nat) (k : Z) : Z :=
   end.
 Definition kroot (v : Z) (n : nat) : Z := kroot_up (Z.to_nat v) v n 0.
 
-Section Resolution.
-  Variable pow_root : Z -> nat -> Z.      (* int(pow(values, 1.0 / n)) as the implementation computes it *)
+(* `while root > 1 and root**inputs > values: root -= 1`; at most root - 1 iterations, fuel = root
+   (FldProofs.root_down_exit: the loop condition is false of the result, i.e. the fuel suffices) *)
+Fixpoint root_down (fuel : nat) (v : Z) (n : nat) (root : Z) : Z :=
+  match fuel with
+  | O => root
+  | S f => if (1 <? root) && (v <? root ^ Z.of_nat n) then root_down f v n (root - 1) else root
+  end.
+(* `while (root + 1)**inputs <= values: root += 1` is kroot_up from `root`; at most values iterations, fuel = values
+   (FldProofs.root_up_exit) *)
 
-  (* exporter.py:682-687 *)
+Section Resolution.
+  Variable pow_root : Z -> nat -> Z.      (* int(round(pow(values, 1.0 / n))) as the implementation computes it *)
+
+  (* exporter.py:682-695 (after the repair of F8): the float root is only a starting point, corrected with integers *)
   Definition resolution (s : scope) (values : Z) (n_inputs : nat) : result Z :=
     match s with
     | EachVariable => Ok (values - 1)
@@ -67,7 +77,26 @@ Section Resolution.
         match n_inputs with
         | O => Err EValue                                       (* "expected input variables in engine" *)
         | _ =>
-            (* pow(negative int, non-integer float) is a complex number; int(complex) is a TypeError *)
+            (* pow(negative int, non-integer float) is a complex number; round(complex) is a TypeError *)
+            if (values <? 0) && (2 <=? n_inputs)%nat then Err EInternal
+            else
+              let root := Z.max 1 (pow_root values n_inputs) in
+              let root := root_down (Z.to_nat root) values n_inputs root in
+              let root := kroot_up (Z.to_nat values) values n_inputs root in
+              Ok (root - 1)
+        end
+    end.
+
+  (* the formula before the repair (finding F8), pow_root = int(pow(values, 1.0 / n)):
+       resolution = -1 + max(1, int(pow(values, 1.0 / n)))
+     kept for the refutation FldProofs.unrepaired_largest_k_refuted_if *)
+  Definition resolution_unrepaired (s : scope) (values : Z) (n_inputs : nat) : result Z :=
+    match s with
+    | EachVariable => Ok (values - 1)
+    | AllVariables =>
+        match n_inputs with
+        | O => Err EValue
+        | _ =>
             if (values <? 0) && (2 <=? n_inputs)%nat then Err EInternal
             else Ok (-1 + Z.max 1 (pow_root values n_inputs))
         end
